@@ -11,7 +11,7 @@ from props import C53gen as G
 ID = "C53"
 THEOREMS = ["C53_pktline_total", "C53_pktline_no_oob", "C53_sideband_total", "C53_packp_lines_bound", "C53_advrefs_alloc",
             "C53_leb128_total_no_oob", "C53_varint_consumed",
-            "C53_idx_total", "C53_idx_no_oob", "C53_idx_alloc",
+            "C53_idx_total", "C53_idx_no_oob", "C53_idx_alloc", "C53_revfile_alloc",
             "C53_delta_total", "C53_delta_no_oob", "C53_delta_alloc",
             "C53_tree_total", "C53_tree_no_oob", "C53_tree_alloc",
             "C53_index_total", "C53_index_no_oob", "C53_index_alloc",
